@@ -174,11 +174,6 @@ func (k KeyRing) VerifyJSONs(ctx context.Context, requests []VerifyJSONRequest) 
 	results := make([]VerifyJSONResult, len(requests))
 	keyIDs := make([][]KeyID, len(requests))
 
-	// Store the initial number of requests that were made. We'll remove
-	// things from the requests array that we no longer need, but we later
-	// need to check that we satisfied the full number of requests.
-	numRequests := len(requests)
-
 	for i := range requests {
 		ids, err := ListKeyIDs(string(requests[i].ServerName), requests[i].Message)
 		if err != nil {
@@ -234,23 +229,22 @@ func (k KeyRing) VerifyJSONs(ctx context.Context, requests []VerifyJSONRequest) 
 		}
 	}
 
-	if len(keysFetched) == numRequests {
-		// If our key requests are all satisfied then we can try performing
-		// a verification using our keys.
-		k.checkUsingKeys(requests, results, keyIDs, keysFetched)
+	// Try the keys that the database supplied first, whatever else is in the
+	// batch: a request that verifies under a database key is settled and is
+	// not looked at again, so a record fetched later cannot undo it.
+	k.checkUsingKeys(requests, results, keyIDs, keysFetched)
 
-		// If we run into any errors when verifying using the keys that we
-		// have then we can hit federation and check for updated keys.
-		errored := false
-		for _, r := range results {
-			if r.Error != nil {
-				errored = true
-				break
-			}
+	// If we run into any errors when verifying using the keys that we
+	// have then we can hit federation and check for updated keys.
+	errored := false
+	for _, r := range results {
+		if r.Error != nil {
+			errored = true
+			break
 		}
-		if !errored {
-			return results, nil
-		}
+	}
+	if !errored {
+		return results, nil
 	}
 
 	for _, fetcher := range k.KeyFetchers {
@@ -280,8 +274,15 @@ func (k KeyRing) VerifyJSONs(ctx context.Context, requests []VerifyJSONRequest) 
 		fetcherLogger.WithField("num_keys_fetched", len(fetched)).
 			Debug("Got keys from fetcher")
 
-		// Hold the new keys and remove them from the request queue.
+		// Hold the new keys and remove them from the request queue. A key that
+		// the fetcher was not asked for never replaces one that is already held
+		// (from the database or from an earlier fetcher).
 		for req, res := range fetched {
+			if _, asked := keyRequests[req]; !asked {
+				if _, held := keysFetched[req]; held {
+					continue
+				}
+			}
 			keysFetched[req] = res
 			delete(keyRequests, req)
 		}
